@@ -2,7 +2,7 @@
     [merge_word] = the (repaired) heap loop of [BPETokenizer::merge_bytes] for one word;
     [canon] = the naive reference: among all adjacent pairs whose concatenation is a
     table entry merge the one with the least (merge id, position), repeat. *)
-From TU Require Import Base BPE_Model C03_Model C02_Inv C02_Loop C02_Proofs C03_Sim C03_Proofs.
+From TU Require Import Base BPE_Model C03_Model C02_Inv C02_Loop C02_Proofs C02_Check C03_Sim C03_Proofs.
 Open Scope N_scope.
 
 (** The heap loop computes exactly the canonical segmentation — for EVERY table (a list of
@@ -65,6 +65,13 @@ Print Assumptions merge_word_pinned_refuted.
 Theorem check_run : forall v, Forall valid_cp (v_str (v_nth 1 v)) -> check_C03 v (run_C03 v) = true.
 Proof. exact check_run_C03_l. Qed.
 Print Assumptions check_run.
+
+(** ... and a [true] of the executable statement on an implementation output means that output IS
+    the canonical id sequence of the text. *)
+Theorem check_sound : forall v out, check_C03 v out = true ->
+  out = L [list_v n_v (canon_text (v_table (v_nth 0 v)) (v_str (v_nth 1 v)))].
+Proof. exact check_C03_sound_l. Qed.
+Print Assumptions check_sound.
 
 (** Non-vacuity: a three-level chain ab < abc < abcd collapses " abcd"-style words into one token,
     competing merges ab / bc are resolved by id, and the premises are met by concrete inputs. *)
